@@ -64,12 +64,17 @@ def const_case(ctx, case):
     """case = (K, style, form) ; form: 'ret' | 'add'"""
     k, style, form = case
     lit = _spell(k, style)
+    want = k
     if form == "ret":
         src = "export function f() -> int { return %s; }" % lit
+    elif form == "ucast":
+        # a constant of type uint: `uint ( K )` folded by the optimiser; as an i32 immediate it is the 32-bit pattern
+        src = "export function f(uint a) -> uint { return a + uint ( %s ) ; }" % lit
+        want = k if k < (1 << 31) else k - (1 << 32)
     else:
         src = "export function f(int a) -> int { return a + %s; }" % lit
     ctx.count()
-    c = adapter.compile_src(src, wasm=True)
+    c = adapter.compile_src(src, wasm=True, optimize=(form == "ucast"))
     if not c.ok:
         ctx.discard("refused:" + c.why()[:60])
         return
@@ -92,10 +97,10 @@ def const_case(ctx, case):
     if ctx.want_sample() and abs(k) > 63:
         ctx.sample({"source": src, "i32.const bytes": raw.hex()})
     vals = [f[2] for f in consts]
-    if vals != [k]:
+    if vals != [want]:
         ctx.fail("i32const|wrong-value",
                  "source %r: i32.const immediates decode (SLEB128) to %r, expected [%d]; raw=%s" % (
-                     src, vals, k, raw.hex()), case)
+                     src, vals, want, raw.hex()), case)
         return
     # engine view, only when the module is valid at all (validity itself is C07)
     try:
@@ -199,7 +204,101 @@ def api_module(ctx, fns):
         ctx.fail("api|invalid", "module built from %r is invalid: %s" % (fns, msg), fns)
 
 
+# --- immediates of both flavours side by side, many locals, many functions -------------------------------------
+
+_BOUND = [0, 1, 63, 64, 65, 100, 127, 128, 129, 200, 255, 256, 8191, 8192, 8193, 16383, 16384, 16385]
+_imm_fn = st.tuples(
+    st.sampled_from([1, 2, 66, 130, 260]),                               # number of i32 locals
+    st.lists(st.tuples(st.sampled_from(["get", "set", "const"]),
+                       st.one_of(st.sampled_from(_BOUND), st.integers(0, 300), st.integers(-(1 << 31), (1 << 31) - 1))),
+             min_size=1, max_size=12),
+)
+_imm_mod = st.tuples(st.lists(_imm_fn, min_size=1, max_size=4), st.sampled_from([0, 0, 0, 126, 127, 128, 130, 255, 256, 257]))
+
+
+def api_immediates(ctx, case):
+    """a module written through the API whose bodies mix unsigned immediates (local indices) and signed ones
+    (i32.const) of equal values, with up to 260 locals, preceded by up to 257 padding functions (so type and
+    function indices cross 127 / 255): every immediate must decode to exactly what was written"""
+    from nsl import WebAssembly as W
+    import io
+    fns, padding = case
+    ctx.count()
+    m = W.Module()
+    written = []
+    try:
+        for _ in range(padding):
+            ti = m.AddFunctionType(W.FunctionType([], [W.ValueType.i32]))
+            m.AddFunction(ti)
+            code = W.Code()
+            code.AddInstruction(W.Instruction(W.opcodes["i32.const"], (7,)))
+            code.AddInstruction(W.Instruction(W.opcodes["return"]))
+            m.AddCode(code)
+        for i, (nloc, instrs) in enumerate(fns):
+            ti = m.AddFunctionType(W.FunctionType([], [W.ValueType.i32]))
+            fi = m.AddFunction(ti)
+            m.AddExport(W.Export(fi, "f%d" % i))
+            code = W.Code()
+            for _ in range(nloc):
+                code.AddLocal(W.Local(W.ValueType.i32))
+            seq = []
+            for kind, v in instrs:
+                if kind == "const":
+                    v = max(-(1 << 31), min((1 << 31) - 1, v))
+                    code.AddInstruction(W.Instruction(W.opcodes["i32.const"], (v,)))
+                    code.AddInstruction(W.Instruction(W.opcodes["local.set"], (0,)))
+                    seq += [("i32.const", v), ("local.set", 0)]
+                else:
+                    idx = abs(v) % nloc
+                    if kind == "get":
+                        code.AddInstruction(W.Instruction(W.opcodes["local.get"], (idx,)))
+                        code.AddInstruction(W.Instruction(W.opcodes["local.set"], (0,)))
+                        seq += [("local.get", idx), ("local.set", 0)]
+                    else:
+                        code.AddInstruction(W.Instruction(W.opcodes["local.get"], (0,)))
+                        code.AddInstruction(W.Instruction(W.opcodes["local.set"], (idx,)))
+                        seq += [("local.get", 0), ("local.set", idx)]
+            code.AddInstruction(W.Instruction(W.opcodes["local.get"], (0,)))
+            code.AddInstruction(W.Instruction(W.opcodes["return"]))
+            seq += [("local.get", 0), ("return", None)]
+            m.AddCode(code)
+            written.append(seq)
+        buf = io.BytesIO()
+        m.WriteTo(buf)
+    except Exception as e:
+        ctx.fail("api|writer-exception|" + type(e).__name__, "the writer raised %r for %r" % (e, case), case)
+        return
+    data = buf.getvalue()
+    if padding >= 127:
+        ctx.label("functions>127")
+    if any(n > 64 for n, _ in fns):
+        ctx.label("locals>64")
+    ctx.nontrivial(data)
+    try:
+        dm = wasmref.decode(data, strict=True)
+    except wasmref.Malformed as e:
+        ctx.fail("api|undecodable", "module built from %r is malformed: %s" % (case, e), case)
+        return
+    if dm.funcs != list(range(padding + len(fns))):
+        ctx.fail("api|type-indices", "function section decodes to type indices %r..., written 0..%d" % (dm.funcs[:8], padding + len(fns) - 1), case)
+        return
+    for i, seq in enumerate(written):
+        body = dm.codes[padding + i]
+        got = [(ins.name, ins.imm) for ins in body.instrs if ins.name != "end"]
+        if got != seq:
+            bad = next((k for k, (a, b) in enumerate(zip(got, seq)) if a != b), min(len(got), len(seq)))
+            ctx.fail("api|immediate", "function %d, instruction %d decodes to %r, written %r (module %r)" % (
+                i, bad, got[bad] if bad < len(got) else None, seq[bad] if bad < len(seq) else None, case), case)
+            return
+    ok, msg, _ = wasmeng.validate_both(data)
+    if not ok:
+        ctx.fail("api|invalid", "module built from %r is invalid: %s" % (case, msg), case)
+
+
 def run(R):
+    R.hyp("api-immediates", _imm_mod, api_immediates, examples=R.pick(60, 1500))
+    R.require("functions>127")
+    R.require("locals>64")
     ub = _boundaries_unsigned()
     batches = [ub[i:i + 512] for i in range(0, len(ub), 512)]
     R.enum("unsigned-boundaries", batches, unsigned_batch, exhaustive=True)
@@ -208,11 +307,13 @@ def run(R):
     sb = _boundaries_signed()
     items = [(k, "dec", form) for k in sb for form in ("ret", "add")]
     items += [(k, sty, "ret") for k in sb if k >= 0 for sty in ("hex", "oct")]
+    ucast = [(k, "dec", "ucast") for k in sb if k >= 0] + [(k, "dec", "ucast") for k in (1 << 31, (1 << 31) + 1, 3000000000, (1 << 32) - 1)]
     if R.quick:
         # quick: every boundary value as `return K` (decimal) + the other spellings/forms thinned
         keep = [it for it in items if it[1] == "dec" and it[2] == "ret"]
         rest = [it for it in items if not (it[1] == "dec" and it[2] == "ret")]
         items = keep + rest[::4]
+    items += ucast
     R.enum("i32const-boundaries", items, const_case, exhaustive=not R.quick)
     R.hyp("i32const-random",
           st.tuples(st.integers(-(1 << 31), (1 << 31) - 1), st.sampled_from(["dec", "hex", "oct"]),
